@@ -253,3 +253,21 @@ def checks(tier):
                       "since and/or until", outside="clock skew together with since (the implementation documents a bounded over-scan)",
                max_decisions=900, tiers=q),
     ]
+
+
+# ---------------------------------------------------------------------------------------------
+# (d) the same answers when the parents come from a commit-graph file (repositories on disk)
+_b13d = checks
+
+
+def checks(tier):
+    from vf.props.C14 import h_commit_graph
+    q = ("quick", "thorough")
+    return _b13d(tier) + [
+        KCheck("C13d.with_commit_graph", h_commit_graph, parts=[{"octopus": True, "n": 5, "graft_on": None}, {"stale": False, "graft_on": None}],
+               encoded=["dulwich.graph.find_merge_base/can_fast_forward", "dulwich.repo.ParentsProvider.get_parents",
+                        "dulwich.commit_graph.CommitGraph.write_to_file/_parse_chunks"],
+               bounds="disk repositories with a commit-graph written by dulwich: every history of 4 commits, and histories of 5 "
+                      "commits with two octopus merges; parents, merge bases and fast-forward answers for every pair equal those "
+                      "without the file (the harness of C14a)", outside="see C14a", tiers=q),
+    ]
